@@ -274,13 +274,28 @@ type solverSpec struct {
 }
 
 var solvers = []solverSpec{
-	{"z3-new", func(f string, t int) []string { return []string{"z3-new", fmt.Sprintf("-T:%d", t), f} }},
+	{"z3-new", func(f string, t int) []string {
+		args := []string{"z3-new", fmt.Sprintf("-T:%d", t)}
+		args = append(args, z3Options()...)
+		return append(args, f)
+	}},
 	{"cvc5", func(f string, t int) []string {
 		return []string{"cvc5", fmt.Sprintf("--tlimit=%d", t*1000), "-q", f}
 	}},
 	// z3 4.8.12 (/usr/bin/z3) is NOT used: it answers "unsat" on a small satisfiable set of the string axioms plus one
 	// extensionality instance (experiments/z3-4.8.12-unsound.smt2; z3 5.1.0 and cvc5 say unknown/sat), which let a
 	// seeded change (C05-6) verify in the second-chance pass. Found by the seed matrix.
+}
+
+// z3Options: z3 5.1.0 with its default (new) arithmetic core answered "unsat" on a satisfiable query made of a
+// recursive spec function and a few irrelevant axioms (experiments/z3-5.1.0-unsound.smt2: 40 lines; unknown with
+// smt.arith.solver=2 or smt.arith.propagate_eqs=false; found because a must-fail mutant of parseMultiarch verified).
+// z3 is therefore run with the legacy simplex core. GOVC_Z3OPTS overrides (development only).
+func z3Options() []string {
+	if v, ok := os.LookupEnv("GOVC_Z3OPTS"); ok {
+		return strings.Fields(v)
+	}
+	return []string{"smt.arith.solver=2"}
 }
 
 type solveResult struct {
